@@ -28,4 +28,34 @@ func Stack.Peek
   property C16
   ensures[empty]    (s == nil || len(*s) == 0) ==> !result1 && result0 == zero(T)
   ensures[nonempty] s != nil && len(*s) > 0 ==> result1 && result0 == (*s)[len(*s) - 1]
+
+// ---------------------------------------------------------------- C06
+// Relational contracts: each exported function of the fork is proved equivalent to the function of the
+// installed toolchain's container/list / container/ring it was forked from (same panics, results, heap).
+pair C06 Element.Next stdlist.Element.Next
+pair C06 Element.Prev stdlist.Element.Prev
+pair C06,C16 List.Init stdlist.List.Init
+pair C06,C16 List.Len stdlist.List.Len
+pair C06 List.Front stdlist.List.Front
+pair C06,C16 List.Back stdlist.List.Back
+pair C06,C16 List.Remove stdlist.List.Remove
+pair C06,C16 List.PushFront stdlist.List.PushFront
+pair C06 List.PushBack stdlist.List.PushBack
+pair C06 List.InsertBefore stdlist.List.InsertBefore
+pair C06 List.InsertAfter stdlist.List.InsertAfter
+pair C06 List.MoveToFront stdlist.List.MoveToFront
+pair C06 List.MoveToBack stdlist.List.MoveToBack
+pair C06 List.MoveBefore stdlist.List.MoveBefore
+pair C06 List.MoveAfter stdlist.List.MoveAfter
+pair C06 List.PushBackList stdlist.List.PushBackList
+pair C06 List.PushFrontList stdlist.List.PushFrontList
+pair C06 New stdlist.New
+pair C06 Ring.Next stdring.Ring.Next
+pair C06 Ring.Prev stdring.Ring.Prev
+pair C06 Ring.Move stdring.Ring.Move
+pair C06 NewRing stdring.New
+pair C06 Ring.Link stdring.Ring.Link
+pair C06 Ring.Unlink stdring.Ring.Unlink
+pair C06 Ring.Len stdring.Ring.Len
+pair C06 Ring.Do stdring.Ring.Do
 @*/
